@@ -161,9 +161,7 @@ func (c *Update) get(height uint64) []*Model {
 		vote.height = height
 	}
 
-	c.setToMap(height, voteBlock)
-
-	return voteBlock
+	return c.setToMapIfAbsent(height, voteBlock)
 }
 
 func (c *Update) markDirty(height uint64) func() {
@@ -232,6 +230,20 @@ func (c *Update) setToMap(height uint64, model []*Model) {
 	defer c.lock.Unlock()
 
 	c.list[height] = model
+}
+
+// setToMapIfAbsent caches votes that were just loaded from the tree and returns the cached ones: a
+// concurrent read-only query must not replace the models block execution is already working on.
+func (c *Update) setToMapIfAbsent(height uint64, model []*Model) []*Model {
+	c.lock.Lock()
+	defer c.lock.Unlock()
+
+	if cached := c.list[height]; cached != nil {
+		return cached
+	}
+
+	c.list[height] = model
+	return model
 }
 
 func getPath(height uint64) []byte {
